@@ -1,4 +1,5 @@
 import Pog.Props.C20
+import Pog.Props.Dc
 import Pog.Props.Resolve
 import Pog.Lemmas.Imports
 import Pog.Lemmas.Annot
@@ -56,6 +57,19 @@ import Pog.Lemmas.AliasCover
                                            (F60 repaired: an endpoint module named like a model imports the model)
 -/
 -- INDEX Pog.ResolveProps: format_table_ok, format_table_cover, resolve_imports_cover_partial, resolve_imports_cover_counterexample_named_no_stem, resolve_imports_cover_counterexample_enum_underlying, resolve_imports_cover_counterexample_enum_nameless, self_import_only_in_models_package, named_forward_ref_iff_self_import, no_forward_ref_outside_models, resolve_monotone_fuel
+/-
+  C01 for the dataclass body (Pog/Model/Dc.lean mirrors `DataclassGenerator.generate`, `_get_field_default` and the field ordering of
+  `PythonConstructRenderer.render_dataclass`; tied by vf/corr/dc.py; proved in Pog/Props/Dc.lean, claimed here):
+    rendered_defaults_last                 in the emitted class body no field without a default follows a field with a default
+                                           (a valid dataclass), for every schema and every `required` list
+    generate_never_diverges / generate_value_error_iff   the collision loop terminates; exactly when `generate` raises ValueError
+    ✗ generate_never_raises_runtime_error  the text `default_factory` in a property / class name makes the post-condition raise
+                                           (counterexample + `generate_ok_partial`)
+    ✗ enum_default_member_exists (F53)     the member name built for an enum default differs from the one `EnumGenerator` gives the value
+                                           (`N/A`, `2x`, integer enums: `Code.1`); exact class `enum_default_member_exact`, partial on
+                                           `[A-Za-z][A-Za-z0-9 _-]*`
+-/
+-- INDEX Pog.DcProps: rendered_defaults_last, render_order_defaults_last, render_order_is_identity, field_line_shape, generate_never_diverges, generate_value_error_iff, generate_default_factory_counterexample, generate_ok_partial, enum_default_member_counterexample, enum_default_expr_counterexample, enum_default_member_exact, enum_default_member_partial, enum_default_member_in_enum_partial, enum_default_wrong_member_counterexample, int_enum_default_never_identifier
 namespace Pog.C01
 open Pog Pog.Imp Pog.Annot Pog.AliasCover
 
